@@ -11,8 +11,13 @@ import time
 
 ROOT = os.path.dirname(os.path.dirname(os.path.abspath(__file__)))
 SPEC = os.path.join(ROOT, "spec")
-WORK = os.path.join(ROOT, "work")
-HARNESS = os.path.join(ROOT, "harness")
+# Normal operation checks /repo. For evaluating seeded changes without touching /repo, VERIF_REPO names another checkout
+# (a scratch worktree with the change applied); harness copy, work files, evidence and replays then live under VERIF_SCRATCH.
+REPO = os.environ.get("VERIF_REPO", "/repo")
+ALT = REPO != "/repo"
+OUTROOT = os.environ.get("VERIF_SCRATCH", "/tmp/verif-alt") if ALT else ROOT
+WORK = os.path.join(OUTROOT, "work")
+HARNESS = os.path.join(OUTROOT, "harness") if ALT else os.path.join(ROOT, "harness")
 VH = os.path.join(HARNESS, "target", "debug", "vh")
 JAR = "/opt/veriftools/tla/tla2tools.jar:/opt/veriftools/tla/CommunityModules-deps.jar"
 NCPU = os.cpu_count() or 4
@@ -43,9 +48,15 @@ def workdir(name):
 def build_harness():
     """Rebuild the harness (path dependencies on /repo's working tree, hooks cfg on)."""
     env = dict(os.environ, CARGO_NET_OFFLINE="true")
+    if ALT:
+        src = os.path.join(ROOT, "harness")
+        os.makedirs(HARNESS, exist_ok=True)
+        subprocess.run(["rsync", "-a", "--delete", "--exclude", "target", src + "/", HARNESS + "/"], check=True)
+        ct = os.path.join(HARNESS, "Cargo.toml")
+        open(ct, "w").write(open(os.path.join(src, "Cargo.toml")).read().replace('path = "/repo/', 'path = "%s/' % REPO))
     lock = os.path.join(HARNESS, "Cargo.lock")
     if not os.path.exists(lock):
-        shutil.copy("/repo/Cargo.lock", lock)
+        shutil.copy(os.path.join(REPO, "Cargo.lock"), lock)
     t = time.time()
     p = subprocess.run(["cargo", "build", "--offline", "--quiet"], cwd=HARNESS, env=env,
                        stdout=subprocess.PIPE, stderr=subprocess.STDOUT, text=True)
@@ -137,6 +148,9 @@ def tlc_violation(out):
     m = re.search(r"Error: Action property (\S+) is violated", out)
     if m:
         return m.group(1)
+    m = re.search(r"Error: Temporal property (\S+) was violated", out)
+    if m:
+        return m.group(1)
     if "Error: Temporal properties were violated" in out:
         return "temporal"
     if "Error: Deadlock reached" in out:
@@ -209,7 +223,7 @@ class Verdict:
         evidence.setdefault("coverage", {})["known_findings_hit"] = self.known_hit
         write_evidence(self.pid, evidence)
         if self.failures:
-            os.makedirs(os.path.join(ROOT, "replays"), exist_ok=True)
+            os.makedirs(os.path.join(OUTROOT, "replays"), exist_ok=True)
             shown = {}
             for key, detail in self.failures:
                 if key in shown:
@@ -217,7 +231,7 @@ class Verdict:
                     continue
                 shown[key] = 1
                 h = hashlib.sha1((key + json.dumps(detail, sort_keys=True, default=str)).encode()).hexdigest()[:10]
-                path = os.path.join(ROOT, "replays", "%s-%s.json" % (self.pid, h))
+                path = os.path.join(OUTROOT, "replays", "%s-%s.json" % (self.pid, h))
                 with open(path, "w") as fp:
                     json.dump({"property": self.pid, "key": key, "detail": detail}, fp, indent=1, default=str)
                 print("VIOLATION property=%s replay=%s" % (self.pid, path))
@@ -227,11 +241,11 @@ class Verdict:
 
 
 def write_evidence(pid, ev):
-    os.makedirs(os.path.join(ROOT, "evidence"), exist_ok=True)
+    os.makedirs(os.path.join(OUTROOT, "evidence"), exist_ok=True)
     ev = dict(ev)
     ev["property_id"] = pid
     ev.setdefault("seed", seed())
-    with open(os.path.join(ROOT, "evidence", pid + ".json"), "w") as f:
+    with open(os.path.join(OUTROOT, "evidence", pid + ".json"), "w") as f:
         json.dump(ev, f, indent=1, default=str)
 
 
